@@ -10,7 +10,7 @@ CONSTANTS
   W = 2
   S = 2
   BitsOf <- RealBits
-  BodyChecked = FALSE
+  BodyChecked = TRUE
   AllowRestart = TRUE
   AllowSync = FALSE
   FreshInits <- OnlyFresh
